@@ -28,8 +28,6 @@ Theorem gen_suffix_orders :
   gen_from_suffix_order = ["U"; "L"; "g"; "mol"] /\ gen_to_suffix_order = ["U"; "L"; "g"; "mol"].
 Proof. split; reflexivity. Qed.
 
-Fixpoint assoc (k : string) (l : list (string * Q)) : option Q :=
-  match l with [] => None | (k', v) :: t => if String.eqb k k' then Some v else assoc k t end.
 
 (* the prefix table of the source is exactly the model's: same keys, same multipliers *)
 Theorem gen_prefix_table_eq_model :
